@@ -3,7 +3,7 @@ import os
 import numpy as np
 from hypothesis import strategies as st
 
-from .. import env, files, gen, spec, stages
+from .. import env, files, gen, iomodel, ops, spec, stages
 from ..core import Violation
 from .c10 import source_stage
 
@@ -58,8 +58,16 @@ def cases(draw):
     # the converter is an SgzReader: it may be opened with preload and may have served other calls before
     before = draw(st.lists(st.sampled_from(["gen_trace_header", "get_tracefield_values", "convert_to_segy", "read_inline",
                                             "read_zslice", "get_trace"]), max_size=3)) if draw(st.integers(0, 2)) == 0 else []
+    # the form in which the source is handed over: named (str, Path, bytes), an open file, a file-like object
+    # without an OS descriptor, a blob client; for the last two, one case in three lets one of the source's
+    # range reads fail (exception, empty or short): the call must then raise or still write the right file
+    form = draw(st.sampled_from(["str", "str", "path", "bytes", "fileobj", "nofd", "nofd", "blob", "blob"]))
+    fault = None
+    if form in ("nofd", "blob") and draw(st.integers(0, 2)) == 0:
+        fault = [draw(st.floats(0, 1, exclude_max=True)), draw(st.sampled_from(["exception", "empty", "short", "exception-service"])),
+                 draw(st.floats(0, 1, exclude_max=True))]
     return {"file": desc, "preload": draw(st.sampled_from([False, False, True])), "before": before,
-            "u": [draw(st.floats(0, 1, exclude_max=True)) for _ in range(3)]}
+            "u": [draw(st.floats(0, 1, exclude_max=True)) for _ in range(3)], "src_form": form, **({"fault": fault} if fault else {})}
 
 
 @st.composite
@@ -85,7 +93,31 @@ def run_case(case, ctx):
         sentinel = b"previous content of the output path " * 5
         with open(out, "wb") as fh:
             fh.write(sentinel)
-    c = SgzConverter(path, preload=bool(case.get("preload")))
+    opened = []
+    form = case.get("src_form") or "str"
+    if form == "nofd":
+        backend = iomodel.CountingFile(path)
+    elif form == "blob":
+        backend = iomodel.CountingBlob(path)
+    else:
+        backend = None
+    n_reads = None
+    if backend is not None and case.get("fault") and not case.get("unsupported"):
+        # an undisturbed run first, to learn how many range reads the re-blocking makes
+        c0 = SgzConverter(backend, preload=bool(case.get("preload")))
+        try:
+            backend.arm()
+            with env.quiet():
+                c0.convert_to_adv_sgz(os.path.join(d, "dry.sgz"))
+            n_reads = len(backend.log)
+        except Exception as e:
+            raise Violation(f"reblock-failed:{type(e).__name__}", f"{files.describe(case['file'])} given as {form}: {e}")
+        finally:
+            c0.close()
+        os.remove(os.path.join(d, "dry.sgz"))
+        backend = iomodel.CountingFile(path) if form == "nofd" else iomodel.CountingBlob(path)
+    c = SgzConverter(backend if backend is not None else ops.in_form(path, form, opened), preload=bool(case.get("preload")))
+    faulted = False
     try:
         u = case.get("u", [0.5, 0.5, 0.5])
         for k, b in enumerate(case.get("before", [])):
@@ -105,13 +137,25 @@ def run_case(case, ctx):
                         c.get_trace(int(u[k] * T.n_tr))
             except Exception as e:
                 raise Violation(f"earlier-call-failed:{b}", f"{b} on the converter object: {type(e).__name__}: {e}")
+        if n_reads:
+            fu, fk, ff = case["fault"]
+            backend.arm({1 + min(n_reads - 1, int(fu * n_reads)): (("short", ff) if fk == "short" else fk)})
         try:
             with env.quiet():
                 c.convert_to_adv_sgz(out)
         except Exception as e:
             exc = e
+        if n_reads:
+            faulted = any(e_[2] != e_[1] for e_ in backend.log)
     finally:
         c.close()
+        if backend is not None:
+            backend.close()
+        for f in opened:
+            f.close()
+    if faulted and exc is not None:
+        # a failed range read was reported: that is one of the two correct outcomes
+        return {"sig": ["fault-reported", form, case["fault"][1], bool(case.get("preload"))], "labels": ["fault-reported", form]}
     if case.get("unsupported"):
         if exc is None:
             raise Violation("unsupported-input-not-refused", f"{files.describe(case['file'])}")
@@ -144,8 +188,9 @@ def run_case(case, ctx):
     nontriv = n_il > 64 or n_xl > 64 or n_il % 4 or n_xl % 4 or ns % 4 or (len(T.owners) >= 2 and stride_odd)
     return {"sig": [cls64(n_il), cls64(n_xl), ns > 1024, ns % 4, len(T.owners), stride_odd, T.structured,
                     case["file"]["version"]] if nontriv else None,
-            "labels": ["irregular" if not T.structured else "regular", "z>1024" if ns > 1024 else "z<=1024",
+            "labels": ["irregular" if not T.structured else "regular", "z>1024" if ns > 1024 else "z<=1024", "src:" + form,
                        f"il:{cls64(n_il)[0]}", f"xl:{cls64(n_xl)[0]}"] + (["preload"] if case.get("preload") else [])
+            + (["fault-absorbed"] if faulted else [])
             + ["before:" + b for b in case.get("before", [])]}
 
 
